@@ -1,0 +1,25 @@
+//go:build verif
+
+// Contracts for the gvc verifier (/verif). Comment-only file: it adds no code to the package.
+package tmi
+
+// ---- kState.FindView (C04 classification, C09 totality) ----
+
+//@ func kState.FindView
+//@   property C04 C09
+//@   requires s.Voting.Round < MAXU32
+//@   requires s.Voting.Height == s.Committing.Height + 1 || s.Committing.Height == 0
+//@   requires s.Voting.Height >= 1
+//@   ensures voting: h == s.Voting.Height && r == s.Voting.Round ==>
+//@       result0 == addr(s.Voting) && result1 == ViewIDVoting && result2 == ViewFound
+//@   ensures next-round: h == s.Voting.Height && r == s.Voting.Round + 1 ==>
+//@       result0 == addr(s.NextRound) && result1 == ViewIDNextRound && result2 == ViewFound
+//@   ensures orphaned: h == s.Voting.Height && r < s.Voting.Round ==> result0 == nil && result1 == 0 && result2 == ViewOrphaned
+//@   ensures future-round: h == s.Voting.Height && r > s.Voting.Round + 1 ==> result0 == nil && result1 == 0 && result2 == ViewFuture
+//@   ensures committing: h != s.Voting.Height && h == s.Committing.Height && r == s.Committing.Round ==>
+//@       result0 == addr(s.Committing) && result1 == ViewIDCommitting && result2 == ViewFound
+//@   ensures before-committing-round: h != s.Voting.Height && h == s.Committing.Height && r < s.Committing.Round ==>
+//@       result0 == nil && result1 == 0 && result2 == ViewBeforeCommitting
+//@   ensures before-committing-height: h < s.Committing.Height ==> result0 == nil && result1 == 0 && result2 == ViewBeforeCommitting
+//@   ensures future-height: h > s.Voting.Height ==> result0 == nil && result1 == 0 && result2 == ViewFuture
+//@   ensures found-iff-view: (result2 == ViewFound) == (result0 != nil)
